@@ -3,7 +3,7 @@
    and integer spelling; its sequence of code tokens is the input's, integers modulo leading zeros. *)
 From Coq Require Import List Ascii String Bool Arith.
 Import ListNotations.
-From F0 Require Import F0s Specs P1 P2 P3g P5 P6 P7 P8 P9 P10 P11 Canon P12 P13 Canonize P14 P15 P16a P16 P17 P18 P19.
+From F0 Require Import F0s Specs P1 P2 P3g P5 P6 P7 P8 P9 P10 P11 Canon P12 P13 Canonize P14 P15 P16a P16 P17 P18 P19 P20.
 
 Theorem C01_output_is_canonical_tree : forall f, wf_file f -> roundtrip f = ftext (canon_file f).
 Proof. exact output_text. Qed.
@@ -22,3 +22,12 @@ Print Assumptions C01_checked.
 Example C01_nonvacuous : wf_fileb demo = true.
 Proof. vm_compute. reflexivity. Qed.
 Print Assumptions C01_nonvacuous.
+
+(* end to end over the external parser: the rebuilt text parses, and to a tree with the same code tokens *)
+Theorem C01_source : forall ts_parse : str -> option cfile,
+  (forall src f, ts_parse src = Some f -> ftext f = src) ->
+  (forall src f, ts_parse src = Some f -> wf_file f -> ts_parse (ftext (canon_file f)) = Some (canon_file f)) ->
+  forall src f, ts_parse src = Some f -> wf_file f ->
+  exists f', ts_parse (roundtrip f) = Some f' /\ filter is_tok (flexseq f') = map nrm (filter is_tok (flexseq f)).
+Proof. exact (fun ts _ Hstable => P20.C01_source ts Hstable). Qed.
+Print Assumptions C01_source.
